@@ -74,6 +74,7 @@ func init() {
 					}
 				}
 				for j := 0; j < 90; j++ {
+					progress() // (the scans below are the harness's own work)
 					qp := orb.Point{coord(-600, 600), coord(-300, 800)}
 					if j >= 60 {
 						// asked from a few whole units beside a pair of points that are one float64 apart: their squared distances
